@@ -129,6 +129,7 @@ REQUIRE = {
     "names_with_digit_suffix": 30,
     "time_nonzero": 200,
     "second_save_after_inplace_change": 20,
+    "saves_over_an_existing_file": 20,
     "shared_name_cases": 16,
     "cases_IO": 100,
     "cases_CosseratRodIO": 30,
@@ -785,7 +786,7 @@ def _run_case(rec, rng, spu, h5py, plan, tier, case_id):
         rec.case(None if trivial else (*base_cls, "roundtrip"), sample=brief if case_id % 7 == 0 else None)
 
         # ---- registries reference live arrays: change in place, save again elsewhere ------------------
-        if not trivial and rng.random() < 0.2:
+        if not trivial and rng.random() < 0.3:
             for k, v in S.arrays.items():
                 if k == ("G", "rod"):
                     continue
@@ -800,6 +801,20 @@ def _run_case(rec, rng, spu, h5py, plan, tier, case_id):
                 roundtrip(fname, saved, t_obj, "first file again")
                 rec.count("second_save_after_inplace_change")
                 rec.case((*base_cls, "second-save"))
+                # a later save into an EXISTING file name (rolling checkpoint slot): the file then holds the later state, nothing of the
+                # earlier one (same dataset names, shapes and dtypes as before, other values and time)
+                for k, v in S.arrays.items():
+                    if k == ("G", "rod"):
+                        continue
+                    kind = "finite" if (plan["cls"] == "CosseratRodIO" and k == ("G", "nodes")) else str(rng.choice(KINDS))
+                    v[...] = _content(rng, v.shape, kind, v.dtype)
+                t3 = real_t(9.5) if plan["time"][0] == "real" else 3.75
+                S.io.save(fname, time=t3)
+                rec.count("files_saved")
+                saved3 = {k: np.array(v, copy=True) for k, v in S.arrays.items()}
+                roundtrip(fname, saved3, t3, "existing file overwritten by a later save")
+                rec.count("saves_over_an_existing_file")
+                rec.case((*base_cls, "overwrite"))
             except Exception as e:
                 viol("save-raises", f"second save: {type(e).__name__}: {e}")
         if dup:
